@@ -58,7 +58,9 @@ isal_aes_cbc_enc_128(const void *in, const void *iv, const void *keys, void *out
                 return ISAL_CRYPTO_ERR_SELF_TEST;
 #endif
 
-        _aes_cbc_enc_128((void *) in, (uint8_t *) iv, (uint8_t *) keys, out, (uint64_t) len_bytes);
+        /* A zero-length message has no blocks: the assembly loops are do-while and would run. */
+        if (len_bytes != 0)
+                _aes_cbc_enc_128((void *) in, (uint8_t *) iv, (uint8_t *) keys, out, (uint64_t) len_bytes);
 
         return 0;
 }
@@ -89,7 +91,9 @@ isal_aes_cbc_enc_192(const void *in, const void *iv, const void *keys, void *out
                 return ISAL_CRYPTO_ERR_SELF_TEST;
 #endif
 
-        _aes_cbc_enc_192((void *) in, (uint8_t *) iv, (uint8_t *) keys, out, (uint64_t) len_bytes);
+        /* A zero-length message has no blocks: the assembly loops are do-while and would run. */
+        if (len_bytes != 0)
+                _aes_cbc_enc_192((void *) in, (uint8_t *) iv, (uint8_t *) keys, out, (uint64_t) len_bytes);
 
         return 0;
 }
@@ -120,7 +124,9 @@ isal_aes_cbc_enc_256(const void *in, const void *iv, const void *keys, void *out
                 return ISAL_CRYPTO_ERR_SELF_TEST;
 #endif
 
-        _aes_cbc_enc_256((void *) in, (uint8_t *) iv, (uint8_t *) keys, out, (uint64_t) len_bytes);
+        /* A zero-length message has no blocks: the assembly loops are do-while and would run. */
+        if (len_bytes != 0)
+                _aes_cbc_enc_256((void *) in, (uint8_t *) iv, (uint8_t *) keys, out, (uint64_t) len_bytes);
 
         return 0;
 }
@@ -151,7 +157,9 @@ isal_aes_cbc_dec_128(const void *in, const void *iv, const void *keys, void *out
                 return ISAL_CRYPTO_ERR_SELF_TEST;
 #endif
 
-        _aes_cbc_dec_128((void *) in, (uint8_t *) iv, (uint8_t *) keys, out, (uint64_t) len_bytes);
+        /* A zero-length message has no blocks: the assembly loops are do-while and would run. */
+        if (len_bytes != 0)
+                _aes_cbc_dec_128((void *) in, (uint8_t *) iv, (uint8_t *) keys, out, (uint64_t) len_bytes);
 
         return 0;
 }
@@ -182,7 +190,9 @@ isal_aes_cbc_dec_192(const void *in, const void *iv, const void *keys, void *out
                 return ISAL_CRYPTO_ERR_SELF_TEST;
 #endif
 
-        _aes_cbc_dec_192((void *) in, (uint8_t *) iv, (uint8_t *) keys, out, (uint64_t) len_bytes);
+        /* A zero-length message has no blocks: the assembly loops are do-while and would run. */
+        if (len_bytes != 0)
+                _aes_cbc_dec_192((void *) in, (uint8_t *) iv, (uint8_t *) keys, out, (uint64_t) len_bytes);
 
         return 0;
 }
@@ -213,7 +223,9 @@ isal_aes_cbc_dec_256(const void *in, const void *iv, const void *keys, void *out
                 return ISAL_CRYPTO_ERR_SELF_TEST;
 #endif
 
-        _aes_cbc_dec_256((void *) in, (uint8_t *) iv, (uint8_t *) keys, out, (uint64_t) len_bytes);
+        /* A zero-length message has no blocks: the assembly loops are do-while and would run. */
+        if (len_bytes != 0)
+                _aes_cbc_dec_256((void *) in, (uint8_t *) iv, (uint8_t *) keys, out, (uint64_t) len_bytes);
 
         return 0;
 }
@@ -227,38 +239,50 @@ isal_aes_cbc_dec_256(const void *in, const void *iv, const void *keys, void *out
 void
 aes_cbc_dec_128(void *in, uint8_t *IV, uint8_t *keys, void *out, uint64_t len_bytes)
 {
-        _aes_cbc_dec_128(in, IV, keys, out, len_bytes);
+        /* A zero-length message has no blocks: the assembly loops are do-while and would run. */
+        if (len_bytes != 0)
+                _aes_cbc_dec_128(in, IV, keys, out, len_bytes);
 }
 
 void
 aes_cbc_dec_192(void *in, uint8_t *IV, uint8_t *keys, void *out, uint64_t len_bytes)
 {
-        _aes_cbc_dec_192(in, IV, keys, out, len_bytes);
+        /* A zero-length message has no blocks: the assembly loops are do-while and would run. */
+        if (len_bytes != 0)
+                _aes_cbc_dec_192(in, IV, keys, out, len_bytes);
 }
 
 void
 aes_cbc_dec_256(void *in, uint8_t *IV, uint8_t *keys, void *out, uint64_t len_bytes)
 {
-        _aes_cbc_dec_256(in, IV, keys, out, len_bytes);
+        /* A zero-length message has no blocks: the assembly loops are do-while and would run. */
+        if (len_bytes != 0)
+                _aes_cbc_dec_256(in, IV, keys, out, len_bytes);
 }
 
 int
 aes_cbc_enc_128(void *in, uint8_t *IV, uint8_t *keys, void *out, uint64_t len_bytes)
 {
-        _aes_cbc_enc_128(in, IV, keys, out, len_bytes);
+        /* A zero-length message has no blocks: the assembly loops are do-while and would run. */
+        if (len_bytes != 0)
+                _aes_cbc_enc_128(in, IV, keys, out, len_bytes);
         return 0;
 }
 
 int
 aes_cbc_enc_192(void *in, uint8_t *IV, uint8_t *keys, void *out, uint64_t len_bytes)
 {
-        _aes_cbc_enc_192(in, IV, keys, out, len_bytes);
+        /* A zero-length message has no blocks: the assembly loops are do-while and would run. */
+        if (len_bytes != 0)
+                _aes_cbc_enc_192(in, IV, keys, out, len_bytes);
         return 0;
 }
 
 int
 aes_cbc_enc_256(void *in, uint8_t *IV, uint8_t *keys, void *out, uint64_t len_bytes)
 {
-        _aes_cbc_enc_256(in, IV, keys, out, len_bytes);
+        /* A zero-length message has no blocks: the assembly loops are do-while and would run. */
+        if (len_bytes != 0)
+                _aes_cbc_enc_256(in, IV, keys, out, len_bytes);
         return 0;
 }
